@@ -76,9 +76,9 @@ static void case_c06(const args_t *a, long c, rng_t *r)
 	}
 	uint64_t payload = 0; for (size_t i = 0; i < adds.n; i++) payload += adds.e[i].k.n + adds.e[i].v.n;
 	/* configuration */
-	size_t limit;
+	size_t limit; int request0 = 0;
 	switch (rndn(r, 6)) {
-	case 0: limit = 1; break;
+	case 0: limit = 1; request0 = rndn(r, 2) == 0; break;      /* half of them ask for 0: below every minimum, clamped to the minimum (1 with the hook) */
 	case 1: limit = 40 + rndn(r, 200); break;
 	case 2: limit = 300 + rndn(r, 3000); break;
 	case 3: limit = payload / (2 + rndn(r, 6)) + 50; break;     /* 2..7 chunks */
@@ -142,7 +142,8 @@ static void case_c06(const args_t *a, long c, rng_t *r)
 	struct mtbl_threadpool *pool = poolsz >= 0 ? mtbl_threadpool_init(poolsz) : NULL;
 	struct mtbl_sorter_options *so = mtbl_sorter_options_init();
 	mtbl_sorter_options_set_temp_dir(so, tdir);
-	mtbl_sorter_options_set_max_memory(so, limit);
+	mtbl_sorter_options_set_max_memory(so, request0 ? 0 : limit);
+	if (request0) STAT("c06.max_memory_request_0");
 	mtbl_sorter_options_set_merge_func(so, ms_merge_cb, &mc);
 	if (pool) mtbl_sorter_options_set_threadpool(so, pool);
 	struct mtbl_sorter *s = mtbl_sorter_init(so);
@@ -162,7 +163,7 @@ static void case_c06(const args_t *a, long c, rng_t *r)
 			uint64_t now = mk_read();
 			if (now != seen) { seen = now; since = 0; }
 			if (since > maxbuf) maxbuf = since;
-			if (since >= limit && limit > 1) {
+			if (since >= limit) {
 				viol("C06/no-spill-at-memory-limit", "after add #%zu the entries buffered since the last spill hold %" PRIu64 " payload bytes >= max_memory %zu and no spill file was created", i, since, limit);
 				since = 0;
 			}
@@ -269,7 +270,7 @@ static void case_c06(const args_t *a, long c, rng_t *r)
 	if (mk_outside) viol("C06/spill-file-outside-temp-dir", "%" PRIu64 " spill files were created outside the configured temporary directory %s, e.g. %s", mk_outside, tdir, mk_bad);
 	/* a chunk is closed no later than the add that brings it to the limit: its payload is < limit + (largest single entry) */
 	uint64_t maxent = 0; for (size_t i = 0; i < adds.n; i++) if (adds.e[i].k.n + adds.e[i].v.n > maxent) maxent = adds.e[i].k.n + adds.e[i].v.n;
-	uint64_t need = limit > 1 ? payload / (limit + maxent) : 0;
+	uint64_t need = payload / (limit + maxent);
 	if (need > spills) viol("C06/too-few-spills-for-memory-limit", "%" PRIu64 " payload bytes with max_memory %zu (largest entry %" PRIu64 ") need at least %" PRIu64 " chunks, %" PRIu64 " spill files were created", payload, limit, maxent, need, spills);
 	size_t left = count_dir(tdir);
 	if (left) viol("C06/temp-files-left-behind", "%zu files left in the sorter temp dir", left);
@@ -288,10 +289,106 @@ static void case_c06(const args_t *a, long c, rng_t *r)
 	model_free(&adds); model_free(&flat); model_free(&want); model_free(&uni);
 }
 
+/* ------------------------------------------------------------------ the memory limit as shipped (this sub-command is meant for the build WITHOUT the hook):
+ * requests below the library's minimum are raised to that minimum (MIN_SORTER_MEMORY from mtbl-private.h, 10 MiB without the hook) and nothing else;
+ * a spill must have happened by the time the payload buffered since the last spill reaches max(request, minimum) */
+#include "mtbl-private.h"
+static void case_c06min(const args_t *a, long c, rng_t *r)
+{
+	static const size_t REQ[] = {0, 1, 1u << 20, 4u << 20, MIN_SORTER_MEMORY - 1, MIN_SORTER_MEMORY, MIN_SORTER_MEMORY + (2u << 20)};
+	size_t req = REQ[c % 7], eff = req < MIN_SORTER_MEMORY ? MIN_SORTER_MEMORY : req;
+	if (MIN_SORTER_MEMORY < (1u << 20)) { if (req >= (1u << 20)) eff = req; }
+	char tdir[4200]; snprintf(tdir, sizeof tdir, "%s/min-%ld", a->workdir, c); mkdir(tdir, 0700);
+	pthread_mutex_lock(&mk_mu); snprintf(mk_expect_dir, sizeof mk_expect_dir, "%s", tdir); mk_count = 0; mk_outside = 0; pthread_mutex_unlock(&mk_mu);
+	struct mtbl_sorter_options *so = mtbl_sorter_options_init();
+	mtbl_sorter_options_set_temp_dir(so, tdir);
+	mtbl_sorter_options_set_max_memory(so, req);
+	mtbl_sorter_options_set_merge_func(so, ms_merge_cb, NULL);
+	struct mtbl_sorter *s = mtbl_sorter_init(so);
+	mtbl_sorter_options_destroy(&so);
+	uint64_t total = (uint64_t)eff + (3u << 20), since = 0, seen = 0, fed = 0, n = 0, maxbuf = 0;
+	uint8_t val[1008]; memset(val, 'v', sizeof val);
+	uint64_t x = rnd64(r) | 1;
+	while (fed < total) {
+		uint8_t key[16]; x ^= x << 13; x ^= x >> 7; x ^= x << 17; snprintf((char *)key, sizeof key, "%015" PRIx64, x & 0xfffffffffffffffULL);
+		if (mtbl_sorter_add(s, key, 15, val, sizeof val) != mtbl_res_success) { viol("C06/add-refused-before-iteration", "mtbl_sorter_add #%" PRIu64 " returned failure", n); break; }
+		n++; fed += 15 + sizeof val; since += 15 + sizeof val;
+		uint64_t now = mk_read();
+		if (now != seen) { seen = now; since = 0; }
+		if (since > maxbuf) maxbuf = since;
+		if (since >= eff) { viol("C06/no-spill-at-memory-limit", "max_memory request %zu (library minimum %zu): %" PRIu64 " payload bytes buffered since the last spill and no spill file was created", req, (size_t)MIN_SORTER_MEMORY, since); break; }
+		STAT("c06.spill_deadline_checks");
+	}
+	if (mk_read() == 0 && fed >= total) viol("C06/too-few-spills-for-memory-limit", "request %zu: %" PRIu64 " payload bytes added and no spill file at all", req, fed);
+	struct mtbl_iter *it = mtbl_sorter_iter(s);
+	const uint8_t *k, *v; size_t lk, lv; uint64_t got = 0; uint8_t prev[16]; int have = 0;
+	while (it && mtbl_iter_next(it, &k, &lk, &v, &lv) == mtbl_res_success) {
+		if (lk != 15 || (have && memcmp(prev, k, 15) >= 0)) { viol("C06/output-not-strictly-ascending", "key #%" PRIu64 " out of order", got); break; }
+		memcpy(prev, k, 15); have = 1; got++;
+	}
+	if (got != n) viol("C06/output-entry-count", "%" PRIu64 " distinct keys added, %" PRIu64 " returned", n, got);
+	if (it) mtbl_iter_destroy(&it);
+	mtbl_sorter_destroy(&s);
+	pthread_mutex_lock(&mk_mu); if (mk_outside) viol("C06/spill-file-outside-temp-dir", "spill file %s is not inside %s", mk_bad, tdir); mk_expect_dir[0] = 0; pthread_mutex_unlock(&mk_mu);
+	if (count_dir(tdir)) viol("C06/temp-files-left-behind", "%zu files left in %s", count_dir(tdir), tdir);
+	rmdir(tdir);
+	statf(1, "c06min.request.%zu", req);
+	stat_max("max.c06min.buffered_payload_permille_of_effective_limit", maxbuf * 1000 / eff);
+	STAT("c06min.sorts");
+	if (want_sample()) sample("c06min: build %s the hook (minimum %zu): request %zu, %" PRIu64 " entries of 1 KiB, %" PRIu64 " spill files, largest buffered payload %" PRIu64, MIN_SORTER_MEMORY == 1 ? "with" : "without", (size_t)MIN_SORTER_MEMORY, req, n, mk_read(), maxbuf);
+	case_hash(req * 977 + (uint64_t)c);
+}
+
+/* ------------------------------------------------------------------ one entry larger than 2 GiB (thorough, -O2 build): chunk files must hold it */
+static void case_c06big(const args_t *a, long c, rng_t *r)
+{
+	(void)r;
+	const uint64_t LV = (1ULL << 31) + 4096 + (uint64_t)c;
+	int poolsz = (c % 2) ? 2 : -1;
+	char tdir[4200]; snprintf(tdir, sizeof tdir, "%s/big-%ld", a->workdir, c); mkdir(tdir, 0700);
+	uint8_t *buf = calloc(1, LV);
+	if (!buf) { inconclusive("cannot allocate 2 GiB"); return; }
+	buf[0] = 0xA1; buf[LV / 2] = 0xB2; buf[LV - 1] = 0xC3;
+	fflush(stdout);
+	pid_t pid = fork();
+	if (pid == 0) {
+		int nfd = open("/dev/null", O_WRONLY); dup2(nfd, 2);
+		struct mtbl_threadpool *pool = poolsz > 0 ? mtbl_threadpool_init(poolsz) : NULL;
+		struct mtbl_sorter_options *so = mtbl_sorter_options_init();
+		mtbl_sorter_options_set_temp_dir(so, tdir); mtbl_sorter_options_set_max_memory(so, 64u << 20);
+		mtbl_sorter_options_set_merge_func(so, ms_merge_cb, NULL);
+		if (pool) mtbl_sorter_options_set_threadpool(so, pool);
+		struct mtbl_sorter *s = mtbl_sorter_init(so);
+		if (mtbl_sorter_add(s, (const uint8_t *)"c", 1, (const uint8_t *)"tail", 4) != mtbl_res_success) _exit(3);
+		if (mtbl_sorter_add(s, (const uint8_t *)"b", 1, buf, LV) != mtbl_res_success) _exit(3);
+		if (mtbl_sorter_add(s, (const uint8_t *)"a", 1, (const uint8_t *)"head", 4) != mtbl_res_success) _exit(3);
+		struct mtbl_iter *it = mtbl_sorter_iter(s);
+		if (!it) _exit(4);
+		const uint8_t *k, *v; size_t lk, lv; int n = 0;
+		while (mtbl_iter_next(it, &k, &lk, &v, &lv) == mtbl_res_success) {
+			if (lk != 1 || k[0] != "abc"[n]) _exit(5);
+			if (n == 1 && (lv != LV || v[0] != 0xA1 || v[LV / 2] != 0xB2 || v[LV - 1] != 0xC3)) _exit(5);
+			if (n != 1 && lv != 4) _exit(5);
+			n++;
+		}
+		_exit(n == 3 ? 0 : 6);
+	}
+	int st; waitpid(pid, &st, 0);
+	if (!(WIFEXITED(st) && WEXITSTATUS(st) == 0)) viol("C06/entry-over-2GiB-not-sorted", "a sorter (pool %d) fed three entries, one with a value of %" PRIu64 " bytes, did not return them (child status 0x%x: %s)", poolsz, LV, st, WIFSIGNALED(st) ? "killed by a signal" : "exit code = step that failed");
+	free(buf);
+	char cmd[4400]; snprintf(cmd, sizeof cmd, "rm -rf '%s'", tdir); if (system(cmd)) {}
+	statf(1, "c06big.pool.%d", poolsz);
+	STAT("c06big.sorts");
+	if (want_sample()) sample("c06big: entries a, b (value of %" PRIu64 " bytes), c added in reverse order, max_memory 64 MiB, pool %d: spilled and read back", LV, poolsz);
+	case_hash(LV + poolsz);
+}
+
 int main(int argc, char **argv)
 {
 	args_t a;
 	parse_args(argc, argv, &a);
+	if (!strcmp(a.sub, "c06min")) return run_cases(&a, case_c06min);
+	if (!strcmp(a.sub, "c06big")) return run_cases(&a, case_c06big);
 	if (strcmp(a.sub, "c06")) return 98;
 	return run_cases(&a, case_c06);
 }
